@@ -378,7 +378,8 @@ PROPS = {
               dict(driver="crash", args=["--nops", "40", "--threads", "3", "--jitter", "400"],
                    quick=4, thorough=80)]),
     "C08": dict(
-        design=[(DUR, ["MC_RainDur_small.cfg"], ["MC_RainDur_small.cfg", "MC_RainDur_big.cfg"])],
+        # (the big configuration, about an hour, is part of C02's thorough tier only)
+        design=[(DUR, ["MC_RainDur_small.cfg"], ["MC_RainDur_small.cfg", "MC_RainDur_comp.cfg"])],
         switches=[("Bug_WriteErrorSwallowed", DUR, "MC_RainDur_small.cfg", "Durable"),
                   ("Bug_ManifestErrorSwallowed", DUR, "MC_RainDur_small.cfg", None)],
         work=[dict(driver="fault", args=["--nops", "22", "--positions", "60"], quick=6, thorough=60,
@@ -485,7 +486,7 @@ PROPS = {
         work=[dict(driver="corrupt", args=["--nops", "25", "--threads", "2", "--max-probes", "1500"],
                    quick=6, thorough=60)]),
     "C16": dict(
-        design=[(DUR, ["MC_RainDur_small.cfg"], ["MC_RainDur_small.cfg", "MC_RainDur_big.cfg"])],
+        design=[(DUR, ["MC_RainDur_small.cfg"], ["MC_RainDur_small.cfg", "MC_RainDur_comp.cfg"])],
         switches=[("Bug_ReuseAfterTornTail", DUR, "MC_RainDur_small.cfg", None)],
         work=[dict(driver="crash", args=["--nops", "30", "--threads", "2", "--torn", "--every", "4"],
                    quick=8, thorough=150),
@@ -508,7 +509,7 @@ def check_prop(prop, tier, seed):
     for module, qcfgs, tcfgs in conf["design"]:
         for cfg in (qcfgs if tier == "quick" else tcfgs):
             d = design_check(f"design-{prop}", module, cfg, workers=min(12, NCPU),
-                             timeout=900 if tier == "quick" else 5400, heap="12g")
+                             timeout=900 if tier == "quick" else 21600, heap="12g")
             design.append(d)
             log(f"[{prop}] design model {cfg}: {d['distinct']} distinct states, depth {d['depth']}, {d['wall_s']}s")
     switches = []
